@@ -125,6 +125,27 @@ class Run:
             else:
                 self.proof["error"] = out[-2000:]
                 self.proof["broken_theorem"] = "build"
+        # thorough tier: re-check the compiled property file and everything it depends on
+        # with the independent checker; -o lists the axioms of the loaded context
+        self.proof["coqchk"] = None
+        if self.tier == "thorough" and p.returncode == 0 and not os.environ.get("VERIF_NO_COQCHK"):
+            modname = "KS." + props[len("theories/"):-2].replace("/", ".")
+            lock = open(os.path.join(COQ, ".lock"), "w")
+            fcntl.flock(lock, fcntl.LOCK_EX)
+            try:
+                c = subprocess.run(["timeout", "3000", "coqchk", "-silent", "-o", "-R", "theories", "KS", modname], cwd=COQ, capture_output=True, text=True)
+            finally:
+                fcntl.flock(lock, fcntl.LOCK_UN)
+                lock.close()
+            co = c.stdout + c.stderr
+            open(os.path.join(self.work, "coqchk.log"), "w").write(co)
+            m = re.search(r"\* Axioms:(.*?)\n\s*\n\* Constants", co, re.S)
+            ax = " ".join(m.group(1).split()) if m else "unparsed"
+            self.proof["coqchk"] = {"exit": c.returncode, "axioms": ax, "module": modname}
+            if c.returncode != 0:
+                self.proof["ok"] = False
+                self.proof["error"] = "coqchk failed: " + co[-1500:]
+                self.proof["broken_theorem"] = "coqchk:" + modname
         # expected theorem names must be present in the props file
         try:
             txt = open(os.path.join(COQ, props)).read()
@@ -394,6 +415,7 @@ def main(argv):
         "trusted_base": spec.get("trusted_base", []) + BASE_TRUSTED,
         "theorems": getattr(run, "theorems", []),
         "print_assumptions": {"closed_under_global_context": run.proof["closed"], "axioms": run.proof["axioms"]},
+        "coqchk": run.proof.get("coqchk"),
         "evaluations": ev + searched,
         "distinct_nontrivial": nontriv,
         "rule": " | ".join(dict.fromkeys(rules)) or "n/a",
